@@ -328,16 +328,21 @@ def _loop2(v):
     yield "nothing-handed-out-before-the-first", implies(i == 0, ws.psum(m) == E.psum(m))
     yield "suffix-weight", v.wtotal == suf
     yield "weight-left-positive-while-columns-are", both(implies(inr, v.wtotal >= wgt), implies(i == K, v.wtotal == 0))
-    yield "enough-left-for-min-width-each", both(v.grow >= MUL(mw, K) - MUL(mw, i), v.grow >= 0)
-    yield "all-handed-out-with-the-last-weight", implies(both(i > 0, v.wtotal == 0), v.grow == 0)
-    yield "conservation", ws.psum(m) + v.grow + MUL(mw, i) == E.psum(m) + v.shared + MUL(mw, K)
-    # the share just handed out is its weight's proportion of what was left, to within rounding, unless raised
-    # to min_width (local form of the statement's proportionality clause)
+    # the step that led here (position i - 1): weight hp, share r, out of gp columns and wp weight left before it
     e1 = Q.seq_get(srt, i - 1)
     hp, r = e1[0], Q.seq_get(ws, e1[1])
     wp, gp = v.wtotal + hp, v.grow + r
+    rp = K - (i - 1)
+    # lemma cascade-step (below), instantiated at that step
+    hyp = both(i >= 1, rp >= 1, hp >= 1, wp >= rp * hp, gp >= rp * mw, gp >= 0, mw >= 0, either(r == mw, both(r >= mw, 2 * wp * r <= 2 * gp * hp + wp)))
+    st.assume(implies(hyp, both(gp - r >= (rp - 1) * mw, gp - r >= 0)))
+    yield "enough-left-for-min-width-each", both(v.grow >= MUL(mw, K) - MUL(mw, i), v.grow >= 0)
+    yield "all-handed-out-with-the-last-weight", implies(both(i > 0, v.wtotal == 0), v.grow == 0)
+    yield "conservation", ws.psum(m) + v.grow + MUL(mw, i) == E.psum(m) + v.shared + MUL(mw, K)
+    # the share just handed out is its weight's proportion of what was left, to within rounding
+    # (|r - gp * hp / wp| <= 1/2), unless min_width intervened (local form of the statement's proportionality clause)
     dd = 2 * wp * r - 2 * gp * hp
-    yield "share-proportional-to-weight", implies(i > 0, both(r >= mw, -wp <= dd, either(dd <= wp, r == mw)))
+    yield "share-proportional-to-weight", implies(i > 0, both(r >= mw, either(both(-wp <= dd, dd <= wp), r == mw)))
 
 
 def _post(S, m, rs, st_obj):
@@ -420,6 +425,24 @@ class ascending_suffix_sum:
     def claim(x):
         yield "base", both(x.aq >= (x.K - (x.K - 1)) * x.aq, x.aq >= x.aq)
         yield "step", both(x.aq + x.suf1 >= (x.K - x.q) * x.aq, x.aq + x.suf1 >= x.aq)
+
+
+@lemma("cascade-step", property="C19")
+class cascade_step:
+    """One step of the sharing loop leaves enough for the columns still to come: with R >= 1 weighted columns left
+    (this one included), this one's weight w the smallest of them (so the weight left T >= R * w), G >= R * min_width
+    columns to hand out, and a share r that is min_width or a rounded proportion (2*T*r <= 2*G*w + T) not below
+    min_width:  G - r >= (R - 1) * min_width (and >= 0)."""
+
+    params = dict(G=Int, w=Int, T=Int, R=Int, mw=Int, r=Int)
+
+    def requires(x):
+        return both(x.R >= 1, x.w >= 1, x.T >= x.R * x.w, x.G >= x.R * x.mw, x.G >= 0, x.mw >= 0,
+                    either(x.r == x.mw, both(x.r >= x.mw, 2 * x.T * x.r <= 2 * x.G * x.w + x.T)))
+
+    def claim(x):
+        yield "enough-left", x.G - x.r >= (x.R - 1) * x.mw
+        yield "non-negative", x.G - x.r >= 0
 
 
 @lemma("repeated-addition-closed-form", property="C19")
